@@ -31,6 +31,11 @@ SAVE = ("        tmpfile = self._path.siblingExtension(\".tmp\")\n"
         "        _dump_json_to_file(data, tmpfile)\n"
         "        fileutil.move_into_place(tmpfile.path, self._path.path)\n")
 
+SC_COMMON = "src/allmydata/storage/common.py"
+SI_DIR = ("    sia = si_b2a(storageindex)\n"
+          "    sia = sia.decode(\"ascii\")\n"
+          "    return os.path.join(sia[:2], sia)\n")
+
 MUTANTS = [
     # ---- C27.1 progress markers
     M("bucket-marker-before-work", F,
@@ -307,6 +312,16 @@ MUTANTS = [
     M("benign-time-slice-test-reworded", F,
       "            self.finished_prefix(cycle, prefix)\n            if time.time() >= start_slice + self.cpu_slice:",
       "            self.finished_prefix(cycle, prefix)\n            if time.time() - start_slice >= self.cpu_slice:", None),
+    # ---- C27.2 where a share is filed: storage_index_to_dir, with its locals known by what they hold, not by name
+    M("benign-si-dir-local-renamed", SC_COMMON, SI_DIR, SI_DIR.replace("sia", "sia_sa"), None),
+    M("benign-si-dir-two-locals", SC_COMMON, SI_DIR,
+      "    b32 = si_b2a(storageindex)\n    name = b32.decode(\"ascii\")\n    return os.path.join(name[:2], name)\n", None),
+    M("benign-si-dir-prefix-in-local", SC_COMMON, SI_DIR,
+      "    name = si_b2a(storageindex).decode(\"ascii\")\n    prefix = name[:2]\n    return os.path.join(prefix, name)\n", None),
+    M("si-dir-three-character-prefix", SC_COMMON, SI_DIR, SI_DIR.replace("sia[:2]", "sia[:3]"), "C27.2"),
+    M("si-dir-renamed-local-wrong-prefix", SC_COMMON, SI_DIR, SI_DIR.replace("sia[:2]", "sia[1:3]").replace("sia", "name"), "C27.2"),
+    M("si-dir-prefix-of-undecoded-other-value", SC_COMMON, SI_DIR,
+      "    sia = si_b2a(storageindex)\n    sia = sia.decode(\"ascii\")\n    return os.path.join(sia[:2].lower()[:1], sia)\n", "C27.2"),
     # ---- vanished anchors
     M("vanish-start-current-prefix", F, "    def start_current_prefix(self, start_slice):",
       "    def start_current_prefixX(self, start_slice):", "ANALYSIS-ERROR"),
